@@ -10,6 +10,8 @@ import (
 	admregv1 "k8s.io/api/admissionregistration/v1"
 	appsv1 "k8s.io/api/apps/v1"
 	corev1 "k8s.io/api/core/v1"
+	netv1 "k8s.io/api/networking/v1"
+	gatewayv1beta1 "sigs.k8s.io/gateway-api/apis/v1beta1"
 	metav1 "k8s.io/apimachinery/pkg/apis/meta/v1"
 	"k8s.io/apimachinery/pkg/util/intstr"
 	"sigs.k8s.io/controller-runtime/pkg/client"
@@ -34,6 +36,7 @@ type Scenario struct {
 	Events    []UserEvent `json:"events"`
 	AutoApprove bool     `json:"autoApprove"`
 	V2Fails   bool       `json:"v2Fails"`
+	IstioDR   bool       `json:"istioDR,omitempty"`
 	HashCompat bool      `json:"hashCompat"`
 }
 
@@ -177,10 +180,34 @@ func (sc *Scenario) buildRollout() *v1beta1.Rollout {
 		v := ios(sc.FailThr)
 		thr = &v
 	}
+	var trs []v1beta1.TrafficRoutingRef
+	if sc.Traffic != "" && sc.Traffic != "none" {
+		tr := v1beta1.TrafficRoutingRef{Service: sc.Name + "-svc", GracePeriodSeconds: int32(sc.GraceSec)}
+		switch {
+		case strings.HasPrefix(sc.Traffic, "ingress-"):
+			tr.Ingress = &v1beta1.IngressTrafficRouting{Name: sc.Name + "-ing", ClassType: strings.TrimPrefix(sc.Traffic, "ingress-")}
+		case sc.Traffic == "gateway":
+			n := sc.Name + "-route"
+			tr.Gateway = &v1beta1.GatewayTrafficRouting{HTTPRouteName: &n}
+		case sc.Traffic == "istio":
+			tr.CustomNetworkRefs = []v1beta1.ObjectRef{{APIVersion: "networking.istio.io/v1alpha3", Kind: "VirtualService", Name: sc.Name + "-vs"}}
+			if sc.IstioDR {
+				tr.CustomNetworkRefs = append(tr.CustomNetworkRefs, v1beta1.ObjectRef{APIVersion: "networking.istio.io/v1alpha3", Kind: "DestinationRule", Name: sc.Name + "-dr"})
+			}
+		}
+		trs = append(trs, tr)
+	}
+	for i, st := range sc.Steps {
+		if st.Header != "" {
+			ht := gatewayv1beta1.HeaderMatchExact
+			steps[i].Matches = []v1beta1.HttpRouteMatch{{Headers: []gatewayv1beta1.HTTPHeaderMatch{{Type: &ht, Name: gatewayv1beta1.HTTPHeaderName(st.Header), Value: "yes"}}}}
+			steps[i].Traffic = nil
+		}
+	}
 	if strings.HasSuffix(sc.Family, "bluegreen") {
-		ro.Spec.Strategy.BlueGreen = &v1beta1.BlueGreenStrategy{Steps: steps, FailureThreshold: thr}
+		ro.Spec.Strategy.BlueGreen = &v1beta1.BlueGreenStrategy{Steps: steps, FailureThreshold: thr, TrafficRoutings: trs}
 	} else {
-		ro.Spec.Strategy.Canary = &v1beta1.CanaryStrategy{Steps: steps, FailureThreshold: thr,
+		ro.Spec.Strategy.Canary = &v1beta1.CanaryStrategy{Steps: steps, FailureThreshold: thr, TrafficRoutings: trs,
 			EnableExtraWorkloadForCanary: sc.Family == "deploy-canary"}
 	}
 	return ro
@@ -197,4 +224,50 @@ func (s *Sim) setupCluster(sc *Scenario) {
 	}
 	must(h.Create(ctx, loadWebhookConfig()))
 	must(h.Create(ctx, sc.buildWorkload()))
+	for _, o := range sc.buildNetwork() {
+		must(h.Create(ctx, o))
+	}
+}
+
+// buildNetwork: the user's Service and gateway objects (several rules, foreign backends, extra annotations).
+func (sc *Scenario) buildNetwork() []client.Object {
+	if sc.Traffic == "" || sc.Traffic == "none" {
+		return nil
+	}
+	svcName := sc.Name + "-svc"
+	svc := &corev1.Service{ObjectMeta: metav1.ObjectMeta{Namespace: sc.NS, Name: svcName},
+		Spec: corev1.ServiceSpec{Selector: map[string]string{"app": sc.Name}, Ports: []corev1.ServicePort{{Name: "http", Port: 80}}}}
+	other := &corev1.Service{ObjectMeta: metav1.ObjectMeta{Namespace: sc.NS, Name: "other-svc"},
+		Spec: corev1.ServiceSpec{Selector: map[string]string{"app": "other"}, Ports: []corev1.ServicePort{{Name: "http", Port: 80}}}}
+	out := []client.Object{svc, other}
+	switch {
+	case strings.HasPrefix(sc.Traffic, "ingress-"):
+		pt := netv1.PathTypePrefix
+		be := func(name string) netv1.IngressBackend {
+			return netv1.IngressBackend{Service: &netv1.IngressServiceBackend{Name: name, Port: netv1.ServiceBackendPort{Number: 80}}}
+		}
+		ing := &netv1.Ingress{ObjectMeta: metav1.ObjectMeta{Namespace: sc.NS, Name: sc.Name + "-ing", Annotations: map[string]string{"kubernetes.io/ingress.class": "nginx", "user/anno": "keep"}},
+			Spec: netv1.IngressSpec{Rules: []netv1.IngressRule{
+				{Host: "a.example.com", IngressRuleValue: netv1.IngressRuleValue{HTTP: &netv1.HTTPIngressRuleValue{Paths: []netv1.HTTPIngressPath{
+					{Path: "/", PathType: &pt, Backend: be(svcName)}, {Path: "/other", PathType: &pt, Backend: be("other-svc")}}}}},
+				{Host: "b.example.com", IngressRuleValue: netv1.IngressRuleValue{HTTP: &netv1.HTTPIngressRuleValue{Paths: []netv1.HTTPIngressPath{
+					{Path: "/o", PathType: &pt, Backend: be("other-svc")}}}}},
+			}}}
+		out = append(out, ing)
+	case sc.Traffic == "gateway":
+		kind := gatewayv1beta1.Kind("Service")
+		port := gatewayv1beta1.PortNumber(80)
+		ref := func(name string, w *int32) gatewayv1beta1.HTTPBackendRef {
+			return gatewayv1beta1.HTTPBackendRef{BackendRef: gatewayv1beta1.BackendRef{BackendObjectReference: gatewayv1beta1.BackendObjectReference{Kind: &kind, Name: gatewayv1beta1.ObjectName(name), Port: &port}, Weight: w}}
+		}
+		pm := gatewayv1beta1.PathMatchPathPrefix
+		p1, p2 := "/api", "/other"
+		route := &gatewayv1beta1.HTTPRoute{ObjectMeta: metav1.ObjectMeta{Namespace: sc.NS, Name: sc.Name + "-route"},
+			Spec: gatewayv1beta1.HTTPRouteSpec{Rules: []gatewayv1beta1.HTTPRouteRule{
+				{Matches: []gatewayv1beta1.HTTPRouteMatch{{Path: &gatewayv1beta1.HTTPPathMatch{Type: &pm, Value: &p1}}}, BackendRefs: []gatewayv1beta1.HTTPBackendRef{ref(svcName, nil)}},
+				{Matches: []gatewayv1beta1.HTTPRouteMatch{{Path: &gatewayv1beta1.HTTPPathMatch{Type: &pm, Value: &p2}}}, BackendRefs: []gatewayv1beta1.HTTPBackendRef{ref("other-svc", nil)}},
+			}}}
+		out = append(out, route)
+	}
+	return out
 }
